@@ -889,3 +889,320 @@ Proof.
       split; [reflexivity|]. cbn [loop_post]. split; [exact HRI|reflexivity].
 Qed.
 End Sim.
+
+(* ------------------------------------------------------------------------------------------ *)
+(* Part 3: Parser::parse                                                                        *)
+(* ------------------------------------------------------------------------------------------ *)
+
+Definition absres (r : spres) : ares_t :=
+  match r with
+  | StOk p s => AOk (abs p) s
+  | StErr p e s => AFail (abs p) e s
+  | StPanic n => APanicked n
+  end.
+
+(* which outcomes are possible: the only reachable panic sites are the two caller-contract asserts
+   (1: dest given while the stream buffer is non-empty; 2: more bytes than input_buffer() holds) and
+   the cmp_input_streams debug_assert (32), the latter only if the active stream is not an input stream *)
+Definition sparse_post (p : sp) (new : bytes) (dest : option N) (r : spres) : Prop :=
+  match r with
+  | StOk p' _ | StErr p' _ _ => RI p' /\ stream p' = stream p
+  | StPanic n => (n = 1 /\ dest <> None /\ stream_buffer p <> []) \/
+                 (n = 2 /\ sinput_space p < len new) \/
+                 (n = 32 /\ ~ stream_ok p)
+  end.
+
+Lemma feed_RI p new : RI p -> len new <= len (buffer p) - free_start p ->
+  RI (upd_idx p (write_at (buffer p) (free_start p) new) (parsed_start p) (gap_start p) (raw_start p)
+              (free_start p + len new)).
+Proof.
+  intros HRI Hn. pose proof HRI as (H1 & H2 & H3 & H4 & H5).
+  apply RI_upd_idx; try lia; [|exact HRI]. rewrite len_write_at; lia.
+Qed.
+
+Lemma feed_abs p new : RI p -> len new <= len (buffer p) - free_start p ->
+  abs (upd_idx p (write_at (buffer p) (free_start p) new) (parsed_start p) (gap_start p) (raw_start p)
+               (free_start p + len new)) =
+  mkA (a_B (abs p)) (a_space (abs p) - len new) (a_parsed (abs p)) (a_raw (abs p) ++ new) (a_out (abs p))
+      (a_req (abs p)) (a_stream (abs p)) (a_prem (abs p)) (a_pad (abs p)) (a_st (abs p)).
+Proof.
+  intros HRI Hn. pose proof HRI as (H1 & H2 & H3 & H4 & H5).
+  rewrite abs_upd_idx. unfold abs. cbn [a_B a_space a_parsed a_raw a_out a_req a_stream a_prem a_pad a_st].
+  assert (T : take (free_start p) (write_at (buffer p) (free_start p) new) = take (free_start p) (buffer p))
+    by (apply take_write_at; lia).
+  rewrite len_write_at by lia. f_equal.
+  - lia.
+  - unfold stream_buffer. apply (slice_eq_take (free_start p)); [lia|exact T].
+  - unfold raw_bytes. rewrite (slice_split (raw_start p) (free_start p) (free_start p + len new)) by lia. f_equal.
+    + apply (slice_eq_take (free_start p)); [lia|exact T].
+    + apply slice_write_at. lia.
+Qed.
+
+(* item 5 *)
+Theorem sparse_refines maxc p new dest : RI p ->
+  aparse maxc (abs p) new dest = absres (sparse maxc p new dest) /\
+  sparse_post p new dest (sparse maxc p new dest).
+Proof.
+  intros HRI. pose proof HRI as (H1 & H2 & H3 & H4 & H5 & H6).
+  unfold sparse, aparse.
+  assert (C1 : (match dest with Some _ => negb (len (a_parsed (abs p)) =? 0) | None => false end)
+             = (match dest with Some _ => negb (parsed_start p =? gap_start p) | None => false end)).
+  { destruct dest as [c|]; [|reflexivity]. change (a_parsed (abs p)) with (stream_buffer p).
+    rewrite (RI_len_parsed p HRI). f_equal. lia. }
+  rewrite C1. clear C1.
+  destruct (match dest with Some _ => negb (parsed_start p =? gap_start p) | None => false end) eqn:E1.
+  { split; [reflexivity|]. left. split; [reflexivity|]. destruct dest as [c|]; [|discriminate].
+    split; [discriminate|]. intros Hnil. pose proof (RI_len_parsed p HRI) as L. rewrite Hnil, len_nil in L. lia. }
+  change (a_space (abs p)) with (len (buffer p) - free_start p).
+  destruct (N.ltb_spec (len (buffer p) - free_start p) (len new)) as [Hn|Hn].
+  { split; [reflexivity|]. right. left. split; [reflexivity|exact Hn]. }
+  set (p1 := upd_idx p (write_at (buffer p) (free_start p) new) (parsed_start p) (gap_start p) (raw_start p)
+                     (free_start p + len new)).
+  pose proof (feed_RI p new HRI Hn) as R1. pose proof (feed_abs p new HRI Hn) as A1. fold p1 in R1, A1.
+  change (len (buffer p) - free_start p - len new) with (a_space (abs p) - len new).
+  rewrite <- A1. change (a_stream (abs p)) with (stream p).
+  set (res0 := mkStatus 0 (match stream p with None => true | Some _ => false end) 0 []).
+  replace (2 * N.to_nat (a_B (abs p)) + 8)%nat with (2 * length (buffer p) + 8)%nat
+    by (change (a_B (abs p)) with (len (buffer p)); unfold len; lia).
+  destruct (parse_loop_sim maxc (2 * length (buffer p) + 8) (mkL p1 res0 dest) R1) as [Ga Gb].
+  unfold absl in Ga. cbn [lp lres lcap] in Ga, Gb. rewrite Ga.
+  assert (S1 : stream p1 = stream p) by reflexivity.
+  destruct (parse_loop maxc (2 * length (buffer p) + 8) (mkL p1 res0 dest)) as [l'|l'|l' e|n];
+    unfold loop_post in Gb; cbn [absflow].
+  - contradiction.
+  - destruct Gb as [R' S']. rewrite (RI_invars_ok (lp l') R'). split; [reflexivity|].
+    split; [exact R'|congruence].
+  - destruct Gb as [R' S']. split; [reflexivity|]. split; [exact R'|congruence].
+  - split; [reflexivity|]. destruct Gb as [(Hn' & Hs)|(Hn' & Hf)].
+    + right. right. split; [exact Hn'|]. intros D. apply Hs. apply (stream_ok_eq p p1 S1). exact D.
+    + exfalso. unfold raw_len in Hf. subst p1. unfold upd_idx in Hf. cbn [free_start raw_start] in Hf.
+      unfold len in *. lia.
+Qed.
+
+(* item 5, in the matching form: same outcome class, related states, identical Status *)
+Corollary sparse_refines_match maxc p new dest : RI p ->
+  match sparse maxc p new dest, aparse maxc (abs p) new dest with
+  | StOk p' s, AOk a' s' => RI p' /\ abs p' = a' /\ s = s'
+  | StErr p' e s, AFail a' e' s' => RI p' /\ abs p' = a' /\ e = e' /\ s = s'
+  | StPanic n, APanicked m => n = m
+  | _, _ => False
+  end.
+Proof.
+  intros HRI. destruct (sparse_refines maxc p new dest HRI) as [Ga Gb]. rewrite Ga.
+  destruct (sparse maxc p new dest) as [p' s|p' e s|n]; cbn [absres sparse_post] in *.
+  - split; [apply Gb|]. split; reflexivity.
+  - split; [apply Gb|]. repeat split; reflexivity.
+  - reflexivity.
+Qed.
+
+(* the panic sites of Parser::parse: 3/20/21/31 (debug_assert_invars!), 30/40 (debug_assert! on the record
+   position) and 99 (model fuel) are unreachable from any state satisfying RI, whatever the input *)
+Corollary sparse_panic_sites maxc p new dest n : RI p ->
+  sparse maxc p new dest = StPanic n -> n = 1 \/ n = 2 \/ n = 32.
+Proof.
+  intros HRI E. destruct (sparse_refines maxc p new dest HRI) as [_ Gb]. rewrite E in Gb.
+  cbn [sparse_post] in Gb. destruct Gb as [(A & _)|[(A & _)|(A & _)]]; auto.
+Qed.
+
+Corollary sparse_invars_never_fail maxc p new dest n : RI p ->
+  In n [3; 20; 21; 30; 31; 40; 99] -> sparse maxc p new dest <> StPanic n.
+Proof.
+  intros HRI Hin E. pose proof (sparse_panic_sites maxc p new dest n HRI E) as Hn.
+  cbn [In] in Hin. lia.
+Qed.
+
+(* a call that respects the caller contract never panics, except through the cmp_input_streams
+   debug_assert when the active stream is not an input-stream type *)
+Corollary sparse_legal_no_panic maxc p new dest n : RI p ->
+  len new <= sinput_space p -> (dest <> None -> stream_buffer p = []) ->
+  sparse maxc p new dest = StPanic n -> n = 32 /\ ~ stream_ok p.
+Proof.
+  intros HRI Hn Hd E. destruct (sparse_refines maxc p new dest HRI) as [_ Gb]. rewrite E in Gb.
+  cbn [sparse_post] in Gb. destruct Gb as [(A & B & C)|[(A & B)|(A & B)]].
+  - exfalso. apply C. apply Hd. exact B.
+  - exfalso. lia.
+  - split; assumption.
+Qed.
+
+Corollary sparse_no_panic maxc p new dest : RI p -> stream_ok p ->
+  len new <= sinput_space p -> (dest <> None -> stream_buffer p = []) ->
+  forall n, sparse maxc p new dest <> StPanic n.
+Proof.
+  intros HRI Hok Hn Hd n E. destruct (sparse_legal_no_panic maxc p new dest n HRI Hn Hd E) as [_ C].
+  exact (C Hok).
+Qed.
+
+(* if the caller contract is violated both machines panic (at the same site) *)
+Corollary sparse_contract_panic maxc p new dest : RI p ->
+  (sinput_space p < len new \/ (dest <> None /\ stream_buffer p <> [])) ->
+  exists n, sparse maxc p new dest = StPanic n /\ aparse maxc (abs p) new dest = APanicked n /\ (n = 1 \/ n = 2).
+Proof.
+  intros HRI Hv. destruct (sparse_refines maxc p new dest HRI) as [Ga _]. rewrite Ga. clear Ga.
+  unfold sparse.
+  destruct (match dest with Some _ => negb (parsed_start p =? gap_start p) | None => false end) eqn:E1.
+  { exists 1. repeat split. left; reflexivity. }
+  unfold sinput_space in Hv.
+  destruct (N.ltb_spec (len (buffer p) - free_start p) (len new)) as [Hn|Hn].
+  { exists 2. repeat split. right; reflexivity. }
+  exfalso. destruct Hv as [Hv|[Hd Hs]]; [lia|]. destruct dest as [c|]; [|apply Hd; reflexivity].
+  apply Hs. apply len_zero_nil. rewrite (RI_len_parsed p HRI).
+  destruct (N.eqb_spec (parsed_start p) (gap_start p)) as [Heq|Hne]; [lia|discriminate].
+Qed.
+
+(* ------------------------------------------------------------------------------------------ *)
+(* Part 4: set_stream, into_input, into_request_parser, initial states                          *)
+(* ------------------------------------------------------------------------------------------ *)
+
+(* item 4 *)
+Theorem set_stream_refines p s : RI p ->
+  match set_stream p s, aset_stream (abs p) s with
+  | SetOk p', ASetOk a' => RI p' /\ abs p' = a'
+  | SetErr, ASetErr => True
+  | SetPanic, ASetPanic => True
+  | _, _ => False
+  end.
+Proof.
+  intros HRI. unfold set_stream, aset_stream.
+  change (a_req (abs p)) with (sreq p). change (a_stream (abs p)) with (stream p).
+  change (match s with
+          | Some x => match cmp_input_streams (r_role (sreq p)) x (stream p) with
+                      | None => None | Some Lt => Some false | Some _ => Some true end
+          | None => Some true end) with (accepts (r_role (sreq p)) (stream p) s).
+  destruct (accepts (r_role (sreq p)) (stream p) s) as [[|]|]; [|exact I|exact I].
+  destruct (optN_eqb s (stream p)); [split; [exact HRI|reflexivity]|].
+  set (st' := match sst p with SStream => SSkip | x => x end).
+  set (p1 := mkSp (buffer p) (parsed_start p) (gap_start p) (raw_start p) (free_start p) (output p)
+                  (output_start p) (sreq p) (stream p) (payload_rem p) (padding_rem p) st').
+  assert (R1 : RI p1) by exact HRI.
+  pose proof (discard_stream_RI p1 R1) as R2. pose proof (discard_stream_abs p1 R1) as A2.
+  set (p2 := discard_stream p1) in *.
+  split; [exact R2|].
+  change (abs (mkSp (buffer p2) (parsed_start p2) (gap_start p2) (raw_start p2) (free_start p2) (output p2)
+                    (output_start p2) (sreq p2) s (payload_rem p2) (padding_rem p2) (sst p2)))
+    with (mkA (a_B (abs p2)) (a_space (abs p2)) (a_parsed (abs p2)) (a_raw (abs p2)) (a_out (abs p2))
+              (a_req (abs p2)) s (a_prem (abs p2)) (a_pad (abs p2)) (a_st (abs p2))).
+  rewrite A2. reflexivity.
+Qed.
+
+(* item 6 *)
+Lemma discard_take_raw p : RI p ->
+  take (free_start (discard_stream p)) (buffer (discard_stream p)) = raw_bytes p.
+Proof.
+  intros HRI. pose proof (discard_stream_abs p HRI) as A. apply (f_equal a_raw) in A.
+  cbn [abs adiscard a_raw] in A. rewrite <- A. unfold raw_bytes.
+  destruct (discard_stream_fields p) as (_ & _ & _ & _ & _ & _ & _ & _ & _ & E). rewrite E. symmetry. apply slice_0.
+Qed.
+
+Theorem into_input_refines p : RI p -> into_input p = ainto_input (abs p).
+Proof.
+  intros HRI. unfold into_input, ainto_input. change (a_boundary (abs p)) with (is_record_boundary p).
+  destruct (is_record_boundary p); [|reflexivity]. cbn zeta. rewrite (discard_take_raw p HRI). reflexivity.
+Qed.
+
+Definition absconv (c : conv_res) : aconv_res :=
+  match c with ConvOk rp => AConvOk rp | ConvInterrupted => AConvInterrupted | ConvPanic => AConvPanic end.
+
+Theorem into_request_parser_refines p : RI p ->
+  ainto_request_parser (abs p) = absconv (into_request_parser p).
+Proof.
+  intros HRI. pose proof HRI as (H1 & H2 & H3 & H4 & H5 & H6).
+  unfold into_request_parser, ainto_request_parser. change (a_boundary (abs p)) with (is_record_boundary p).
+  destruct (is_record_boundary p); cbn [negb]; [|reflexivity].
+  change (a_out (abs p)) with (output_buffer p). rewrite (RI_len_out p HRI).
+  destruct (N.eqb_spec (len (output p)) 0) as [Hz|Hz]; cbn [negb].
+  - rewrite Hz. cbn [absconv]. rewrite (discard_take_raw p HRI).
+    pose proof (discard_stream_abs p HRI) as A. apply (f_equal a_B) in A. cbn [abs adiscard a_B] in A.
+    rewrite A. reflexivity.
+  - destruct (N.eqb_spec (len (output p) - output_start p) 0) as [Hy|Hy]; [|reflexivity].
+    exfalso. apply Hz. rewrite H6 by lia. reflexivity.
+Qed.
+
+Corollary into_request_parser_ok p : RI p -> is_record_boundary p = true -> output_buffer p = [] ->
+  exists rp, into_request_parser p = ConvOk rp /\
+             held rp = a_raw (abs p) /\ cap rp = a_B (abs p) /\ st rp = Header.
+Proof.
+  intros HRI Hb Ho. pose proof (into_request_parser_refines p HRI) as E.
+  unfold ainto_request_parser in E. change (a_boundary (abs p)) with (is_record_boundary p) in E.
+  change (a_out (abs p)) with (output_buffer p) in E. rewrite Hb, Ho in E. cbn [negb] in E.
+  change (len (@nil N) =? 0) with true in E. cbn [negb] in E.
+  destruct (into_request_parser p) as [rp| |]; cbn [absconv] in E; try discriminate.
+  exists rp. split; [reflexivity|]. injection E as E. subst rp. repeat split.
+Qed.
+
+(* item 7: the initial states *)
+Theorem into_stream_parser_init rp r : st rp = Done r -> len (held rp) <= cap rp ->
+  exists p0, into_stream_parser rp = inl p0 /\ RI p0 /\
+             abs p0 = mkA (cap rp) (cap rp - len (held rp)) [] (held rp) [] r
+                          (next_input_stream (r_role r) None) 0 0 SSkip.
+Proof.
+  intros Hst Hl. unfold into_stream_parser. rewrite Hst. eexists. split; [reflexivity|].
+  assert (L : len (held rp ++ zeros (cap rp - len (held rp))) = cap rp)
+    by (rewrite len_app, len_zeros; lia).
+  split.
+  - unfold RI. cbn [buffer parsed_start gap_start raw_start free_start output output_start].
+    rewrite L. repeat split; try lia; apply N.le_0_l.
+  - unfold abs, stream_buffer, raw_bytes, output_buffer.
+    cbn [buffer parsed_start gap_start raw_start free_start output output_start sreq stream payload_rem padding_rem sst].
+    rewrite L. f_equal. rewrite slice_0. apply take_len_app.
+Qed.
+
+Theorem new_sparser_init bs r :
+  RI (new_sparser bs r) /\
+  abs (new_sparser bs r) = mkA (aligned_bufsize bs) (aligned_bufsize bs) [] [] [] r
+                               (next_input_stream (r_role r) None) 0 0 SSkip.
+Proof.
+  unfold new_sparser. split.
+  - unfold RI. cbn [buffer parsed_start gap_start raw_start free_start output output_start].
+    repeat split; try lia; apply N.le_0_l.
+  - unfold abs, stream_buffer, raw_bytes, output_buffer.
+    cbn [buffer parsed_start gap_start raw_start free_start output output_start sreq stream payload_rem padding_rem sst].
+    rewrite len_zeros. f_equal. lia.
+Qed.
+
+Lemma init_stream_ok_check :
+  forallb (fun role => match next_input_stream role None with None => true | Some e => is_input_stream e end)
+          ROLE_VALUES = true.
+Proof. vm_compute. reflexivity. Qed.
+
+Lemma init_stream_ok role : In role ROLE_VALUES ->
+  match next_input_stream role None with None => True | Some e => is_input_stream e = true end.
+Proof.
+  intros H. pose proof init_stream_ok_check as C. rewrite forallb_forall in C. specialize (C role H).
+  destruct (next_input_stream role None); [exact C|exact I].
+Qed.
+
+(* the initial states satisfy stream_ok for every role of the protocol, and parse keeps [stream] *)
+Lemma new_sparser_stream_ok bs r : In (r_role r) ROLE_VALUES -> stream_ok (new_sparser bs r).
+Proof. intros H. unfold stream_ok, new_sparser. cbn [stream]. apply init_stream_ok. exact H. Qed.
+
+Lemma sparse_stream_ok maxc p new dest : RI p -> stream_ok p ->
+  match sparse maxc p new dest with
+  | StOk p' _ | StErr p' _ _ => stream_ok p'
+  | StPanic _ => True
+  end.
+Proof.
+  intros HRI Hok. destruct (sparse_refines maxc p new dest HRI) as [_ Gb].
+  destruct (sparse maxc p new dest) as [p' s|p' e s|n]; cbn [sparse_post] in Gb; [| |exact I];
+    destruct Gb as [_ S]; apply (stream_ok_eq p p' S); exact Hok.
+Qed.
+
+Print Assumptions compress_RI.
+Print Assumptions compress_abs.
+Print Assumptions consume_stream_RI.
+Print Assumptions consume_stream_abs.
+Print Assumptions consume_output_RI.
+Print Assumptions consume_output_abs.
+Print Assumptions set_stream_refines.
+Print Assumptions sparse_refines.
+Print Assumptions sparse_refines_match.
+Print Assumptions sparse_panic_sites.
+Print Assumptions sparse_invars_never_fail.
+Print Assumptions sparse_legal_no_panic.
+Print Assumptions sparse_no_panic.
+Print Assumptions sparse_contract_panic.
+Print Assumptions into_input_refines.
+Print Assumptions into_request_parser_refines.
+Print Assumptions into_request_parser_ok.
+Print Assumptions into_stream_parser_init.
+Print Assumptions new_sparser_init.
+Print Assumptions sparse_stream_ok.
